@@ -36,6 +36,34 @@ var astTransforms = map[string]astTransform{
 	"split-and-conditions": splitAndConditions,
 	// if f(x) op y { ... } (a statement of a block, no init) -> c0tmp := f(x); if c0tmp op y { ... }
 	"hoist-call-from-condition": hoistCallFromCondition,
+	// every function that returns something starts with `defer func() {}()`: go/ssa then spills every returned
+	// value through a slot (the shape a real `defer mu.Unlock()` gives a function; met with seed C05h)
+	"add-noop-defer": addNoopDefer,
+}
+
+func addNoopDefer(fset *token.FileSet, f *ast.File) int {
+	n := 0
+	for _, d := range f.Decls {
+		fd, ok := d.(*ast.FuncDecl)
+		if !ok || fd.Body == nil || fd.Type.Results == nil || len(fd.Type.Results.List) == 0 {
+			continue
+		}
+		// named results can be changed by a deferred closure: leave those functions alone (none would be, but the
+		// spill is then not an exact no-op for the analysis)
+		named := false
+		for _, r := range fd.Type.Results.List {
+			if len(r.Names) > 0 {
+				named = true
+			}
+		}
+		if named {
+			continue
+		}
+		def := &ast.DeferStmt{Call: &ast.CallExpr{Fun: &ast.FuncLit{Type: &ast.FuncType{Params: &ast.FieldList{}}, Body: &ast.BlockStmt{}}}}
+		fd.Body.List = append([]ast.Stmt{def}, fd.Body.List...)
+		n++
+	}
+	return n
 }
 
 func splitAndConditions(fset *token.FileSet, f *ast.File) int {
